@@ -334,6 +334,12 @@ theorem C09_source_parallelise :
   decide
 
 open Mxl.Generated.C09 in
+/-- failing rows: all four scan workers catch `ZeroDivisionError` (the model's `guardZeroDiv` branches on it), and
+    `Simulation.default` replaces a model that cannot be evaluated at its initial state by its NaN-valued copy instead of
+    raising again (after the repair of F-C09-3) -/
+theorem C09_source_failing_rows : workersCatchZeroDivision = true ∧ placeholderSurvivesZeroDivision = true := by decide
+
+open Mxl.Generated.C09 in
 /-- EVERY scan driver (scan.* ×4, mc.* ×5, the three mc.* MCA wrappers): rows come from `list(<table>.iterrows())` of the
     driver's own table argument, the worker is handed `y0=None` (custom initial values are written into the model first,
     so that a row's own initial values win), no driver passes a `timeout` (so no row is ever dropped:
@@ -394,7 +400,7 @@ theorem C09_zero_division_row_is_placeholder (cfg : EulerCfg) (run : Content →
     (idx : List Rat) (c c1 : Content) (row : Row) (ig : Integ) (ha : applyRow c row = .ok c1)
     (hi : simInit cfg c1 = .ok ig) (hz : zeroDivAt cfg c1 = .ok true) :
     rowPure { run := guardZeroDiv cfg run, dfltIndex := idx } c row = mkDefault c1 idx := by
-  simp only [rowPure, ha, guardZeroDiv, hi, hz]
+  simp only [rowPure, ha, guardZeroDiv, hi, hz, show Generated.C09.workersCatchZeroDivision = true from by decide, if_true]
 
 /-- steady-state worker (full): a successful result has exactly one row and so has the
     placeholder (`SteadyStateScan` takes `.iloc[-1]` of either); the worker leaves the model alone. -/
